@@ -1525,6 +1525,10 @@ func (t *tScreen) parseSgrMouse(buf *bytes.Buffer, evs *[]Event) (bool, bool) {
 			}
 			*evs = append(*evs, t.buildMouseEvent(x, y, btn))
 			return true, true
+
+		default:
+			// not a byte of a mouse report: this is something else
+			return false, false
 		}
 	}
 
